@@ -18,8 +18,10 @@ TECHNIQUE = "explicit-state reachability (BFS to fixpoint) over (DFA state x pre
 LEVEL_TEXT = ("For every expression a shipped language passes to find_all / starts_with (captured at run time from the working "
               "tree) the reachable configuration space (DFA state x nesting-depth class of every Balanced copy) is explored to a "
               "fixpoint and every token class the predicates can distinguish is offered in every configuration; the oracle is that "
-              "at most one transition accepts (Pattern.consume never raises 'Multiple transitions found!'). The space is finite "
-              "and explored completely; the depth cap is validated on the real Balanced class.")
+              "at most one transition accepts (counted by probing predicate copies, and Pattern.consume never raises 'Multiple transitions "
+              "found!'). That space is finite and explored completely; the depth cap is validated on the real Balanced class. One level up, "
+              "the reachable states of find_all itself (several concurrent attempts, their predicate maps) are explored breadth-first up to a "
+              "bound on live attempts and history length (reported as a cap).")
 LEVEL_NOTE = ("Assumes tokens differ only in (pygments kind, value) as far as predicates are concerned, which holds for every predicate "
               "class in codelimit/common/token_matching (checked by enumerating their attributes); nesting depths >= cap behave like the cap "
               "(checked by comparing accept vectors for depths cap..cap+5).")
